@@ -316,6 +316,17 @@ func runC09(c *Ctx) {
 	c.ruleLifecycle("R8-no-lock-while-rules-run", map[string]bool{"engine-call1-no-lock": true, "engine-call2-no-lock": true, "engine-call3-no-lock": true, "engine-call4-no-lock": true})
 	// R9
 	c.ruleLockPanicSafe("R9-lock-released-when-faulting")
+	// R11: a condition that is no boolean is a fault, not "false": the value of an if / else-if / for
+	// condition is tested through reflect's Bool() (which panics on another kind; R1/R2 turn that
+	// into the rule's error) or under a kind test whose other edge returns an error -- the condition
+	// obligations of C02-S2/S3. A helper that answers "not satisfied" for an int lets the rule run on.
+	c.only = func(key string) bool {
+		return key == "IfStmt.Evaluate#conditions" || key == "ForStmt.Evaluate#condition-before-every-iteration"
+	}
+	c.ruleS2("R11-non-boolean-condition-faults")
+	c.ruleS3("R11-non-boolean-condition-faults")
+	c.only = nil
+	c.Min("R11-non-boolean-condition-faults", 2)
 	c.Min("R9-lock-released-when-faulting", 20)
 	// R10
 	c.ruleNoZeroForAFault("R10-no-zero-for-a-fault")
